@@ -58,7 +58,7 @@ def gen(rng, tier, index):
     exh = index >= CASES[tier] - nperm
     d = int(rng.integers(1, 5))
     mode = gens.pick(rng, ("cutoff", "cutoff", "gabriel"))
-    kind = gens.pick(rng, ("generic", "generic", "clusters", "collinear", "duplicated", "lattice"))
+    kind = gens.pick(rng, ("generic", "generic", "clusters", "collinear", "duplicated", "lattice", "chain"))
     if exh:
         n, kind = PERM_N[tier], "generic"
         d = int(rng.integers(1, 4))
@@ -67,16 +67,34 @@ def gen(rng, tier, index):
         n = int(rng.integers(2, hi if rng.random() < 0.3 else 30))
     X = _points(rng, n, d, kind)
     w = rng.permutation(n).astype(float) + rng.random(n) * 0.5
+    chain = None
+    if kind == "chain":
+        # points strung along a line with steps in [0.8, 1.2] (input order shuffled) and weights that grow along it, a
+        # few dips apart: with a reach of one step the ascent from the far end visits every point - paths of up to
+        # n - 1 moves, not the handful a random cloud gives
+        pos = np.cumsum(rng.uniform(0.8, 1.2, size=n))
+        u = rng.normal(size=d)
+        order = rng.permutation(n)
+        X = np.outer(pos, u / np.linalg.norm(u))[order]
+        rank = np.arange(n).astype(float)
+        for _ in range(int(rng.integers(0, 3))):
+            if n > 4:
+                a_ = int(rng.integers(1, n - 1))
+                rank[a_], rank[a_ - 1] = rank[a_ - 1], rank[a_]  # a local dip: a second centre, or a detour
+        w = (rank + rng.random(n) * 0.5)[order]
+        chain = True
     cell = None
-    if rng.random() < 0.35:
+    if rng.random() < 0.35 and not chain:
         cell = rng.uniform(1.5, 6.0, size=d)
     diam = float(np.sqrt(((X.max(0) - X.min(0)) ** 2).sum())) + 1e-9
     case = {"X": X, "w": w, "cell": cell, "mode": mode, "kind": kind, "exhaustive_perm": bool(exh)}
     if mode == "cutoff":
         case["cuts"] = (diam * rng.choice([1e-3, 0.05, 0.2, 0.5, 1.0, 10.0], size=n)) ** 2
         case["scale"] = float(gens.pick(rng, (1.0, 1.0, 0.5, 2.0)))
+        if chain:
+            case["cuts"] = np.full(n, (float(rng.uniform(1.25, 1.5)) / case["scale"]) ** 2)  # reach: the adjacent point only
     else:
-        case["shell"] = int(rng.integers(1, 5))
+        case["shell"] = int(rng.integers(1, 5)) if not chain else 1
     unit = 1.0
     if rng.random() < 0.3:  # the same configuration in other length units (exact power of two)
         unit = float(2.0 ** int(rng.integers(-40, 24)))
@@ -313,6 +331,8 @@ def run(case, j):
                 k = ptr[k]
                 steps += 1
             long_path |= steps >= 2
+            if steps > int(np.log2(max(n, 2))) + 1:
+                j.note("ascent_paths_longer_than_log2_n_plus_1")
             if not j.ok("every point is labelled with the centre its recorded path reaches", labels[i] == k, lambda: {"point": i, "label": int(labels[i]), "reached": k}):
                 break
     else:
